@@ -178,7 +178,7 @@ def run_executor(binary, family, n, seed, tier, procs=None, extra_env=None, plan
 OBS_EVENTS = {"reset", "cmd_call", "cmd_ret", "tg_probe", "tg_probe_reply", "cli_send", "cli_recv", "cli_closed",
               "tg_beg", "tg_end", "end", "panic", "harness_error", "y_routed", "e_install", "e_update_lb",
               "y_pre_claim", "y_wait_snapshot", "y_wait_released", "e_remove", "e_pause_state", "e_claim", "e_claim_refused", "e_claim_none", "e_target_state", "e_hc_apply",
-              "file_obs", "cfg_obs", "mem_obs"}
+              "file_obs", "cfg_obs", "mem_obs", "list_obs"}
 
 
 def filter_trace(src, dst, keep=OBS_EVENTS):
